@@ -48,48 +48,79 @@ DEFAULT_POLICY = {
 
 
 def instantiate(t: JTemplate, policy: Optional[Dict[str, bool]] = None) -> str:
+    """Abstract instance of a template.  `{% set x = e %}` substitutes e for x in later expressions (single
+    assignment in scope); `{% macro m(a) %}...{% endmacro %}` bodies are expanded at `{{ m(x) }}` with a := x."""
     pol = dict(DEFAULT_POLICY)
     if policy:
         pol.update(policy)
     out: List[str] = []
+    macros: Dict[str, J.Macro] = {}
+    for n in t.ast.find_all(J.Macro):
+        macros[n.name] = n
 
-    def emit_nodes(nodes):
+    def subst_src(e, env: Dict[str, str]) -> str:
+        """source text of an expression with set-variables / macro parameters replaced"""
+        src = JTemplate.src(e)
+        if not env:
+            return src
+        # replace whole identifiers that are not attribute names
+        def rep(m):
+            nm = m.group(0)
+            return "(%s)" % env[nm] if nm in env and not re.match(r"^\w+$", env[nm]) else env.get(nm, nm)
+        return re.sub(r"(?<![\w.])[A-Za-z_]\w*", rep, src)
+
+    def emit_nodes(nodes, env):
         for n in nodes:
-            emit(n)
+            emit(n, env)
 
-    def emit(n):
+    def emit_expr(c, env):
+        if isinstance(c, J.Call) and isinstance(c.node, J.Name) and c.node.name in macros and not c.kwargs:
+            m = macros[c.node.name]
+            params = [a.name for a in m.args]
+            if len(c.args) <= len(params):
+                env2 = dict(env)
+                for pn, av in zip(params, c.args):
+                    env2[pn] = subst_src(av, env)
+                emit_nodes(m.body, env2)
+                return
+        out.append(placeholder(subst_src(c, env)))
+
+    def emit(n, env):
         if isinstance(n, J.Output):
             for c in n.nodes:
                 if isinstance(c, J.TemplateData):
                     out.append(c.data)
                 else:
-                    out.append(placeholder(JTemplate.src(c)))
+                    emit_expr(c, env)
         elif isinstance(n, J.For):
-            emit_nodes(n.body)
+            emit_nodes(n.body, dict(env))
         elif isinstance(n, J.If):
-            key = JTemplate.src(n.test)
-            v = pol.get(key)
+            key = subst_src(n.test, env)
+            v = pol.get(key, pol.get(JTemplate.src(n.test)))
             if v is None:
                 v = False
             if v:
-                emit_nodes(n.body)
+                emit_nodes(n.body, env)
             else:
                 done = False
                 for el in n.elif_:
-                    k2 = JTemplate.src(el.test)
+                    k2 = subst_src(el.test, env)
                     if pol.get(k2):
-                        emit_nodes(el.body)
+                        emit_nodes(el.body, env)
                         done = True
                         break
                 if not done:
-                    emit_nodes(n.else_)
+                    emit_nodes(n.else_, env)
         elif isinstance(n, J.Assign):
+            if isinstance(n.target, J.Name):
+                env[n.target.name] = subst_src(n.node, env)
+        elif isinstance(n, J.Macro):
             pass
         elif isinstance(n, (J.Template,)):
-            emit_nodes(n.body)
+            emit_nodes(n.body, env)
         else:
             for c in n.iter_child_nodes():
-                emit(c)
+                emit(c, env)
 
-    emit(t.ast)
+    emit(t.ast, {})
     return "".join(out)
